@@ -250,31 +250,41 @@ def oracle(cv, valids, col=False):
             fails.append(('map_chain_to_samples', 'chain %d -> %s expected %s' % (c, v, exp_s)))
 
     # projections: each value lands exactly on the items that map to it, everything else missing
+    cur = {'tag': ''}
+
     def chk_proj(site, f, expected):
         try:
             got = np.asarray(f(), dtype=float).reshape(-1)
         except Exception as e:
-            fails.append((site, 'raised %s' % type(e).__name__))
+            fails.append((site, cur['tag'] + 'raised %s' % type(e).__name__))
             return
         exp = np.array([np.nan if e is None else e for e in expected], dtype=float)
         if got.shape != exp.shape or not np.array_equal(np.isnan(got), np.isnan(exp)) or \
                 not np.array_equal(got[~np.isnan(got)], exp[~np.isnan(exp)]):
-            fails.append((site, 'got %s expected %s' % (got.tolist(), exp.tolist())))
-    vs = 100.0 + np.arange(len(sel))
-    vc = 200.0 + np.arange(nch)
-    vk = 300.0 + np.arange(len(valids))
-    chk_proj('project_cycles_to_samples', lambda: S.project_cycles_to_samples(vk, cvA),
-             [vk[lab] if lab >= 0 else None for lab in cv])
-    chk_proj('project_subset_to_cycles', lambda: S.project_subset_to_cycles(vs, sv),
-             [vs[sub_of[k]] if k in sub_of else None for k in range(len(valids))])
-    chk_proj('project_subset_to_samples', lambda: S.project_subset_to_samples(vs, sv, cvA),
-             [vs[sub_of[lab]] if lab in sub_of else None for lab in cv])
-    chk_proj('project_chain_to_subset', lambda: S.project_chain_to_subset(vc, chv),
-             [vc[chain_of_sub[j]] for j in range(len(sel))])
-    chk_proj('project_chain_to_cycles', lambda: S.project_chain_to_cycles(vc, chv, sv),
-             [vc[chain_of_sub[sub_of[k]]] if k in sub_of else None for k in range(len(valids))])
-    chk_proj('project_chain_to_samples', lambda: S.project_chain_to_samples(vc, chv, sv, cvA),
-             [vc[chain_of_sub[sub_of[lab]]] if lab in sub_of else None for lab in cv])
+            fails.append((site, cur['tag'] + 'got %s expected %s' % (got.tolist(), exp.tolist())))
+    # per-item values of any dtype (float, integer, single precision, boolean): a missing item must read as missing (nan) whatever
+    # the dtype of the values
+    for dt in (float, np.int64, np.float32, bool):
+        cur['tag'] = '' if dt is float else '[values of dtype %s] ' % np.dtype(dt).name
+        if dt is bool:
+            vs, vc, vk = (np.arange(len(sel)) % 2 == 0), (np.arange(nch) % 2 == 0), (np.arange(len(valids)) % 2 == 0)
+        else:
+            vs, vc, vk = (100 + np.arange(len(sel))).astype(dt), (200 + np.arange(nch)).astype(dt), (300 + np.arange(len(valids))).astype(dt)
+        n0 = len(fails)
+        chk_proj('project_cycles_to_samples', lambda: S.project_cycles_to_samples(vk, cvA),
+                 [vk[lab] if lab >= 0 else None for lab in cv])
+        chk_proj('project_subset_to_cycles', lambda: S.project_subset_to_cycles(vs, sv),
+                 [vs[sub_of[k]] if k in sub_of else None for k in range(len(valids))])
+        chk_proj('project_subset_to_samples', lambda: S.project_subset_to_samples(vs, sv, cvA),
+                 [vs[sub_of[lab]] if lab in sub_of else None for lab in cv])
+        chk_proj('project_chain_to_subset', lambda: S.project_chain_to_subset(vc, chv),
+                 [vc[chain_of_sub[j]] for j in range(len(sel))])
+        chk_proj('project_chain_to_cycles', lambda: S.project_chain_to_cycles(vc, chv, sv),
+                 [vc[chain_of_sub[sub_of[k]]] if k in sub_of else None for k in range(len(valids))])
+        chk_proj('project_chain_to_samples', lambda: S.project_chain_to_samples(vc, chv, sv, cvA),
+                 [vc[chain_of_sub[sub_of[lab]]] if lab in sub_of else None for lab in cv])
+        if len(fails) > n0:
+            break
     return fails
 
 
@@ -286,7 +296,7 @@ def nontrivial(cv, valids):
 def run(ctx):
     ctx.rule = ('cases = (cycle vector, selection vector): every boolean selection of length <= %d with a derived '
                 'cycle/gap layout, every composition of <= %d cycles (lens 1-3, gaps 0-1) x every selection, plus random '
-                'larger ones; each case evaluates all 12 maps and 6 projections on every index, in the (n,) and (n,1) '
+                'larger ones; each case evaluates all 12 maps and 6 projections (values of dtype float64, int64, float32, bool) on every index, in the (n,) and (n,1) '
                 'layouts; non-trivial = has both selected and unselected cycles, or unlabelled samples and a selection'
                 % ((8, 3) if ctx.quick() else (12, 4)))
     ctx.proof(extra=['props/Prop_Tie_Maps.v', 'props/Prop_Tie_Cyclesobj.v'])  # translation tie: program regenerated from the source + refinement theorems
